@@ -19,6 +19,17 @@ LB = "acryo/loader/_base.py"
 
 
 def anchors(a: Anchors):
+    a.state("models_hold_no_per_call_state", "acryo/alignment/_base.py",
+            {"TomographyInput": ["_cutoff", "_tilt_model"], "RotationImplemented": ["_n_rotations", "quaternions"],
+             "BaseAlignmentModel": ["_mask", "_n_templates", "_ndim", "_template", "_template_mask_cache", "class:_DUMMY_POS", "class:_DUMMY_QUAT"],
+             "TemplateMaskCache": ["_dict"]},
+            "alignment models keep only their construction parameters and the template/mask cache (the modelled shared state)")
+    a.state("concrete_models_hold_no_state", "acryo/alignment/_concrete.py",
+            {"ZNCCAlignment": [], "PCCAlignment": [], "NCCAlignment": [], "FSCAlignment": []}, "the four concrete models add no attributes")
+    a.state("loaders_hold_no_derived_state", "acryo/loader/_loader.py", {"SubtomogramLoader": ["_image", "_molecules"]},
+            "a SubtomogramLoader stores its image and molecules only")
+    a.state("batch_holds_no_derived_state", "acryo/loader/_batch.py", {"BatchLoader": ["_images", "_molecules"]},
+            "a BatchLoader stores its images and molecules only")
     AC = "acryo/alignment/_concrete.py"
     ABS = "acryo/alignment/_base.py"
     a.pure("tasks_do_not_mutate_shared_state",
